@@ -1,4 +1,5 @@
 import Qvnt.Props.C12
+import Qvnt.Props.Code.C12
 open Qvnt
 #print axioms C12_gates_no_panic
 #print axioms C12_gates_total
@@ -18,3 +19,8 @@ open Qvnt
 #print axioms C12_session_total
 #print axioms C12_run_total
 #print axioms C12_run_total_unitary
+#print axioms processNodes_macrosInv
+#print axioms addAst_keysNodup
+#print axioms session_keysNodup
+#print axioms C12_code_session_total
+#print axioms C12_code_new_total
